@@ -20,10 +20,17 @@ impl LogRec {
         self.0.lock().unwrap().push(k.labels().map(|l| (l.key().to_string(), l.value().to_string())).collect());
     }
 }
+static DESCRIBED: Mutex<Vec<String>> = Mutex::new(Vec::new());
 impl Recorder for LogRec {
-    fn describe_counter(&self, _: KeyName, _: Option<Unit>, _: SharedString) {}
-    fn describe_gauge(&self, _: KeyName, _: Option<Unit>, _: SharedString) {}
-    fn describe_histogram(&self, _: KeyName, _: Option<Unit>, _: SharedString) {}
+    fn describe_counter(&self, k: KeyName, u: Option<Unit>, d: SharedString) {
+        DESCRIBED.lock().unwrap().push(format!("counter {} {:?} {}", k.as_str(), u, d));
+    }
+    fn describe_gauge(&self, k: KeyName, u: Option<Unit>, d: SharedString) {
+        DESCRIBED.lock().unwrap().push(format!("gauge {} {:?} {}", k.as_str(), u, d));
+    }
+    fn describe_histogram(&self, k: KeyName, u: Option<Unit>, d: SharedString) {
+        DESCRIBED.lock().unwrap().push(format!("histogram {} {:?} {}", k.as_str(), u, d));
+    }
     fn register_counter(&self, k: &Key, _: &Metadata<'_>) -> Counter {
         self.put(k);
         Counter::noop()
@@ -701,6 +708,24 @@ fn value_types_part(res: &mut PartResult) {
             states.add(&got);
             if got != w {
                 res.violation("field-value-rendered-wrong", format!("labels {:?}, expected {:?}", got, w), json!({}));
+            }
+        }
+    });
+    // descriptions pass through the layer unchanged, inside and outside spans
+    tracing::dispatcher::with_default(&dispatch, || {
+        for inside in [false, true] {
+            let span = tracing::info_span!("d", a = "x");
+            let _g = if inside { Some(span.enter()) } else { None };
+            DESCRIBED.lock().unwrap().clear();
+            rec.describe_counter("dc".into(), Some(Unit::Bytes), "counter help".into());
+            rec.describe_gauge("dg".into(), None, "gauge help".into());
+            rec.describe_histogram("dh".into(), Some(Unit::Seconds), "histogram help".into());
+            let got = DESCRIBED.lock().unwrap().clone();
+            res.executions += 1;
+            res.transitions += 3;
+            let want = vec![format!("counter dc {:?} counter help", Some(Unit::Bytes)), format!("gauge dg {:?} gauge help", None::<Unit>), format!("histogram dh {:?} histogram help", Some(Unit::Seconds))];
+            if got != want {
+                res.violation("description-not-passed-through", format!("describe_* through the layer (inside a span: {}): inner recorder saw {:?}, expected {:?}", inside, got, want), json!({}));
             }
         }
     });
